@@ -92,6 +92,8 @@ class Ctx:
         """a case of the real code that the specification rejects.
         case: JSON-serialisable dict with everything needed to replay and to match known findings"""
         for k in self.known:
+            if os.environ.get("VERIF_NO_KNOWN"):          # for tallies by hand: report everything
+                break
             if k["status"] == "open" and k["pred"](case, reason):
                 self.known_hits[k["id"]] = self.known_hits.get(k["id"], 0) + 1
                 self.known_what[k["id"]] = k["what"]
